@@ -42,7 +42,10 @@ class Bounded:
 
 def run_unit(u, tier, seed, registry, case=None):
     if isinstance(u, C.Contract):
+        for k_ in C.RECHECK:
+            C.RECHECK[k_] = 0
         r = C.Verifier(u, tier, seed, registry).run(cases=None if case is None else [case])
+        r['cvc5_recheck'] = dict(C.RECHECK)
         if u.crosscheck is not None and case in (None, 0):
             try:
                 from .crosscheck import crosscheck
